@@ -153,7 +153,7 @@ theorem step_req (app : App) (fw : Bool) (c : Cfg) : slotsReq (step app fw c) = 
 /-- `_cast` does not touch the request object -/
 theorem cast_req (app : App) (fw : Bool) (s : Slots) (out : Out) : (Wsgi.cast app fw s out).1.req = s.req := by
   have := runLoop_invariant app fw (fun c => slotsReq c = s.req)
-    (fun c h => by rw [step_req]; exact h) (Gen.castMaxLoops + 1) (.run 0 s out) rfl
+    (fun c h => by rw [step_req]; exact h) (Gen.wsgiCastMaxLoops + 1) (.run 0 s out) rfl
   unfold Wsgi.cast
   split
   · rename_i heq; rw [heq] at this; exact this
